@@ -226,3 +226,196 @@ pub fn run(t: &[&str], o: &mut Oracle) -> String {
     }
     "ok".into()
 }
+
+/// Pacing of objects OUTSIDE the Lean model's domain (engine-only oracle, C14): FEC objects with repair packets and
+/// content-encoded objects (transfer length != content length).  The clause is judged on the wire: with
+/// tick = Duration::div_f64(target, ceil(transfer_length / E)) - the number of SOURCE packets of what is actually
+/// transferred - the i-th packet of the transfer (in emission order, repair packets included) never leaves before
+/// start + i * tick.
+///
+///   pace <rs|gz|nc> <nSym> <parity> <targetNs> <stepNs>                                      -> ok
+pub fn pace(t: &[&str], o: &mut Oracle) -> String {
+    if t.len() != 6 {
+        return "bad-op".into();
+    }
+    let n: Vec<u64> = t[2..].iter().filter_map(|x| x.parse().ok()).collect();
+    if n.len() != 4 || n[0] == 0 || n[3] == 0 {
+        return "bad-op".into();
+    }
+    let (n_sym, parity, target, step) = (n[0], n[1] as u8, n[2], n[3]);
+    let e: u16 = 16;
+    let (oti, cenc) = match t[1] {
+        "rs" => match Oti::new_reed_solomon_rs28(e, 4, parity) {
+            Ok(x) => (x, flute::core::lct::Cenc::Null),
+            Err(_) => return "bad-op".into(),
+        },
+        "gz" => (Oti::new_no_code(e, 8), flute::core::lct::Cenc::Gzip),
+        "nc" => (Oti::new_no_code(e, 8), flute::core::lct::Cenc::Null),
+        _ => return "bad-op".into(),
+    };
+    let config = Config { fdt_duration: Duration::from_secs(3600), fdt_carousel_mode: CarouselRepeatMode::DelayBetweenTransfers(Duration::from_secs(3600)), ..Default::default() };
+    let mut sender = Sender::new(UDPEndpoint::new(None, "224.0.0.1".to_owned(), 3400), 1, &Oti::new_no_code(1400, 64), &config);
+    let rec = Arc::new(Rec(Mutex::new(Vec::new())));
+    sender.subscribe(rec.clone());
+    // compressible content: the compressed object is much shorter than the content
+    let content: Vec<u8> = (0..(e as u64 * n_sym)).map(|i| if t[1] == "gz" { (i / 64) as u8 } else { (i * 7 + 3) as u8 }).collect();
+    let tc = TransferConfig {
+        max_transfer_count: 1,
+        oti: Some(oti),
+        cenc,
+        target_acquisition: Some(flute::sender::TargetAcquisition::WithinDuration(Duration::from_nanos(target))),
+        ..Default::default()
+    };
+    let url = url::Url::parse("file:///paced.bin").unwrap();
+    let obj = match ObjectDesc::create_from_buffer(content, "application/octet-stream", &url, false, tc) {
+        Ok(x) => x,
+        Err(_) => return "ERR".into(),
+    };
+    let src_pkts = obj.transfer_length.div_ceil(e as u64).max(1);
+    let content_pkts = obj.content_length.div_ceil(e as u64).max(1);
+    let tick = Duration::from_nanos(target).div_f64(src_pkts as f64).as_nanos() as u64;
+    let t0 = UNIX_EPOCH + Duration::from_secs(1_700_000_000);
+    let toi = match sender.add_object(0, obj) {
+        Ok(x) => x,
+        Err(_) => return "ERR".into(),
+    };
+    if sender.publish(t0).is_err() {
+        return "ERR".into();
+    }
+    let mut start: Option<u64> = None;
+    let mut idx: u64 = 0;
+    let mut seen = 0usize;
+    let horizon = target.saturating_mul(3) / step + 50;
+    let mut reported = false;
+    for k in 0..horizon.min(200_000) {
+        let now_ns = k * step;
+        let now = t0 + Duration::from_nanos(now_ns);
+        // drain this instant
+        for _ in 0..10_000 {
+            let d = sender.read(now);
+            {
+                let evs = rec.0.lock().unwrap();
+                for (is_start, etoi) in evs.iter().skip(seen) {
+                    if *is_start && *etoi == toi && start.is_none() {
+                        start = Some(now_ns);
+                    }
+                }
+                seen = evs.len();
+            }
+            let d = match d {
+                Some(d) => d,
+                None => break,
+            };
+            if let Ok(p) = parse_alc_pkt(&d) {
+                if p.lct.toi == toi {
+                    if let Some(s0) = start {
+                        if !reported && (now_ns - s0) as u128 + 1 < (idx as u128) * (tick as u128) {
+                            reported = true;
+                            o.fail(
+                                "C14:pacing-early",
+                                &format!(
+                                    "{} object ({} source packets of the transferred data, {} of the content, parity {}), target {} ns, tick {} ns: packet {} of the transfer (emission order) leaves at start+{} ns, before {} * tick",
+                                    t[1], src_pkts, content_pkts, parity, target, tick, idx, now_ns - s0, idx
+                                ),
+                            );
+                        }
+                    }
+                    idx += 1;
+                }
+            }
+        }
+        if !sender.is_added(toi) && idx > 0 {
+            break;
+        }
+    }
+    if idx < src_pkts {
+        o.fail("C14:paced-object-not-sent", &format!("{} object: {} packets seen, {} source packets expected within 3 x target", t[1], idx, src_pkts));
+    }
+    "ok".into()
+}
+
+/// Interleave window of a FEC object with repair packets (engine-only oracle, C13; the scheduler model abstracts a
+/// transfer to "n packets" and its generator is No-Code, where a block is empty once its source symbols are sent):
+/// a block is open from its first to its last packet (repair packets included); at most max(1, interleave_blocks)
+/// blocks are open at once and blocks are opened in increasing SBN.
+///
+///   window <parity> <nBlocks> <k> <il>                                                       -> ok
+pub fn window(t: &[&str], o: &mut Oracle) -> String {
+    if t.len() != 5 {
+        return "bad-op".into();
+    }
+    let n: Vec<u64> = t[1..].iter().filter_map(|x| x.parse().ok()).collect();
+    if n.len() != 4 || n[1] == 0 || n[2] == 0 || n[2] + n[0] > 255 {
+        return "bad-op".into();
+    }
+    let (parity, nb_blocks, k, il) = (n[0], n[1], n[2], n[3]);
+    let e: u16 = 16;
+    let oti = match Oti::new_reed_solomon_rs28(e, k as u8, parity as u8) {
+        Ok(x) => x,
+        Err(_) => return "bad-op".into(),
+    };
+    let config = Config {
+        interleave_blocks: il as u8,
+        fdt_duration: Duration::from_secs(3600),
+        fdt_carousel_mode: CarouselRepeatMode::DelayBetweenTransfers(Duration::from_secs(3600)),
+        ..Default::default()
+    };
+    let mut sender = Sender::new(UDPEndpoint::new(None, "224.0.0.1".to_owned(), 3400), 1, &Oti::new_no_code(1400, 64), &config);
+    let content: Vec<u8> = (0..(e as u64 * k * nb_blocks)).map(|i| (i * 5 + 1) as u8).collect();
+    let tc = TransferConfig { max_transfer_count: 1, oti: Some(oti.clone()), ..Default::default() };
+    let url = url::Url::parse("file:///fec.bin").unwrap();
+    let obj = match ObjectDesc::create_from_buffer(content, "application/octet-stream", &url, false, tc) {
+        Ok(x) => x,
+        Err(_) => return "ERR".into(),
+    };
+    let now = UNIX_EPOCH + Duration::from_secs(1_700_000_000);
+    let toi = match sender.add_object(0, obj) {
+        Ok(x) => x,
+        Err(_) => return "ERR".into(),
+    };
+    if sender.publish(now).is_err() {
+        return "ERR".into();
+    }
+    let mut stream: Vec<u32> = Vec::new();
+    for _ in 0..100_000 {
+        let d = match sender.read(now) {
+            Some(d) => d,
+            None => break,
+        };
+        if let Ok(p) = parse_alc_pkt(&d) {
+            if p.lct.toi == toi {
+                match flute::core::alc::parse_payload_id(&p, &oti) {
+                    Ok(id) => stream.push(id.sbn),
+                    Err(_) => o.fail("C13:interleave-undecodable", "payload id of a FEC packet not parsed"),
+                }
+            }
+        }
+    }
+    let per_block = (k + parity) as usize;
+    if stream.len() != per_block * nb_blocks as usize {
+        o.fail("C13:interleave-packet-count", &format!("{} packets for {} blocks of {} source + {} repair symbols", stream.len(), nb_blocks, k, parity));
+        return "ok".into();
+    }
+    let w = il.max(1) as usize;
+    let mut count: std::collections::BTreeMap<u32, usize> = std::collections::BTreeMap::new();
+    let mut next_new: u32 = 0;
+    for (pos, sbn) in stream.iter().enumerate() {
+        if !count.contains_key(sbn) {
+            if *sbn != next_new {
+                o.fail("C13:interleave-order", &format!("block {} opened at packet {} although block {} has not been opened (RS {}+{}, window {})", sbn, pos, next_new, k, parity, w));
+                break;
+            }
+            next_new += 1;
+        }
+        *count.entry(*sbn).or_insert(0) += 1;
+        let open = count.values().filter(|c| **c < per_block).count() + if count[sbn] == per_block { 1 } else { 0 };
+        if open > w {
+            o.fail(
+                "C13:interleave-window",
+                &format!("{} blocks open at packet {} (RS {} source + {} repair symbols per block, {} blocks, interleave_blocks {}): SBN stream {:?}", open, pos, k, parity, nb_blocks, il, &stream[..stream.len().min(24)]),
+            );
+            break;
+        }
+    }
+    "ok".into()
+}
